@@ -789,6 +789,8 @@ class Interp:
                 return self.eval(expr, {}, func, depth)       # class-level constant / table read through the instance
             raise AnalysisError("%s:%d attribute self.%s unknown to the analysis" % (func.qualname, node.lineno, a))
         if isinstance(obj, ModuleRef):
+            if obj.name in ("np", "math") and a in ("inf", "Inf", "infty", "PINF"):
+                return float("inf")
             return ModuleRef(obj.name + "." + a)
         if isinstance(obj, ObjStub):
             if a in obj.attrs:
@@ -1444,9 +1446,13 @@ class Interp:
             pc = self._path_cond()
             if sel is not None and sel is not True:
                 # where=mask: entries where the mask is False KEEP what `out` held (not the value of the operation)
-                if not self.is_mask(sel):
+                if not self.is_mask(sel) and not isinstance(sel, bool):
                     raise AnalysisError("%s:%d where= is not a comparison the analysis follows" % (func.qualname, node.lineno))
-                pc = sel if pc is None else self.dom.cand(pc, sel)
+                ts = self.truth(sel)
+                if ts is False:
+                    return out
+                if ts is None:
+                    pc = sel if pc is None else self.dom.cand(pc, sel)
             if isinstance(out, SArr) and self.stn is not None and (isinstance(r, SArr) or self.is_num(r)):
                 rr = r if isinstance(r, SArr) else SArr(out.length, [(0, out.length, self.lift(r))])
                 new = rr if pc is None else self.stn.zip_map(lambda n_, o_: self.dom.where(pc, n_, o_), rr, out)
@@ -1459,7 +1465,9 @@ class Interp:
             # out= a plain LOCAL NAME holding a point-wise array value: the name now denotes the result (other names bound to
             # the same array are not followed: refused when the name was bound from another name or an attribute)
             site = getattr(self, "_call_site", None)
-            if site is not None and site[0] is node and (self.dom.is_value(out) or _is_conc(out)) and self.is_num(r) and not isinstance(r, SArr):
+            if isinstance(out, float) and pc is not None and type(self.dom).__name__ == "UnitDomain":
+                pc = None           # +inf carries every unit (like 0): for the dimensions the entry is the operation's result
+            if site is not None and site[0] is node and (self.dom.is_value(out) or _is_conc(out) or (isinstance(out, float) and pc is None)) and self.is_num(r) and not isinstance(r, SArr):
                 kw = [k.value for k in node.keywords if k.arg == "out"]
                 if len(kw) == 1 and isinstance(kw[0], ast.Name) and kw[0].id in site[1] and self._own_local(kw[0].id, func, node.lineno):
                     new = self.lift(r) if pc is None else self.dom.where(pc, self.lift(r), self.lift(out))
@@ -1724,6 +1732,8 @@ class Interp:
                 e.violation = ("POINTWISE-SCATTER", func.qualname, "`%s` (line %d): np.place puts the FIRST N entries of the values array, in order, at the N positions where the mask holds -- not the entries at those positions (that is `arr[mask] = vals[mask]` / np.where / np.copyto(..., where=)): the value stored for an entry depends on how many masked entries precede it, i.e. on the other faces / cells" % (unparse(node)[:60], ln),
                                "np-place", {"C01", "C02", "C03", "C10", "C12", "C13", "C14", "C15", "C16", "C17", "C18", "C11"})
             raise e
+        if base == "full" and len(args) == 2 and "full" not in self.np_hooks and (_is_conc(args[1]) or isinstance(args[1], float) or self.dom.is_value(args[1])):
+            return args[1]          # one value in every entry (point-wise: the entry)
         if base == "clip" and len(args) == 3 and not kwargs:
             # numpy's definition: minimum(a_max, maximum(a, a_min)) -- with a_min > a_max the result is a_max
             lo, hi = args[1], args[2]
